@@ -1,10 +1,11 @@
 #!/bin/bash
 # caught_by.sh <patch.diff>: apply to a scratch copy of /repo, run all 20 checks, print "<patch> : C01 C04 C07(err) ..."
-patch=$1
+patch=$(readlink -f "$1")
 d=$(mktemp -d /tmp/pgv_cb.XXXXXX)
 rsync -a --exclude .git --exclude '*.egg-info' /repo/ $d/repo/
 ( cd $d/repo && git init -q . >/dev/null 2>&1; git apply --whitespace=nowarn "$patch" ) || { echo "$patch : PATCH-DOES-NOT-APPLY"; rm -rf $d; exit 0; }
 out=""
+cd /verif
 for c in $(seq -w 1 20); do
   PGVERIF_REPO=$d/repo PGVERIF_EVIDENCE_DIR=$d/ev /venv/bin/python -m pgverif check C$c > /dev/null 2>&1; rc=$?
   [ $rc = 1 ] && out="$out C$c"
